@@ -88,7 +88,7 @@ def specChildren (el : TVal) : Int := intOf (field (fieldsOf el) 5)
 
 /-- the tree shape the file states (names and annotations do not matter for paths) -/
 def specTreeElements (els : List TVal) : List Element :=
-  els.map (fun el => ⟨⟨"", specRep el, (field (fieldsOf el) 1).map (fun _ => 0), 0, none⟩, specChildren el⟩)
+  els.map (fun el => ⟨⟨"", specRep el, (field (fieldsOf el) 1).map (fun _ => 0), 0, none, none⟩, specChildren el⟩)
 
 def parseLeaf (s : String) : Option Leaf :=
   match s.splitOn "." with
